@@ -10,6 +10,14 @@ Kinds of cases:
 * `conc_prior`: one direct call of the concentration sampler's prior branch (regression input).
 * `probe`: options the CLI accepts but the property text does not list (`--print-freq 0`,
   `--concentration-value <= 0`): the outcome is recorded in the evidence, never judged.
+* `cli_edge`: the `phyclone run` click command invoked in process (`click.testing.CliRunner`, same parsing and
+  callback as the console entry point) with option values at the edges of what `cli.py` accepts, including values
+  outside a documented range that click clamps (`IntRange/FloatRange(..., clamp=True)`): the parsed value must be the
+  clamped one, the run must finish and the trace file must satisfy the property.
+* `cli_reject`: a malformed value (not a number, not one of the choices, missing file, unknown option): must end as a
+  clean click error (exit status 2, `Error: ...`, no traceback, no output file), in process and in a subprocess.
+* `cli_probe`: values click accepts for options the property text does not list (`--precision <= 0`, `--seed -1`, the
+  two loss-probability flags together, ...): outcome recorded under `probes_outside_property[...]`, never judged.
 """
 import contextlib
 import gzip
@@ -39,7 +47,8 @@ from phyclone.tree import Tree, FSCRPDistribution, TreeJointDistribution
 ID = "C19"
 LEVEL = "other"
 THEOREMS = ["resample_index_ok", "resample_unrepaired_fails", "subtree_choice_nonempty_or_fallback", "normalise_ok",
-            "weights_positive", "schedule_total", "schedule_untimed", "run_guards_ok"]
+            "weights_positive", "schedule_total", "schedule_untimed", "run_guards_ok",
+            "support_complete_wf", "run_states_ok", "run_start_ok", "run_start_store_ok", "run_entries_ok"]
 BUDGET = {"quick": 100, "thorough": 900}
 MAX_JOBS = 14
 EXPLANATION = (
@@ -52,10 +61,17 @@ EXPLANATION = (
     "outlier priors in [0,1) every proposal probability of Proposal.table and every incremental weight (incrWeight, including "
     "the last-step correction) is positive; burn-in / main loop / thinning / time limit terminate for thin, print_freq >= 1 and "
     "record the post-burn-in entry first, at most 1 + num_iters entries, exactly the thinned schedule without a time limit.  "
-    "NOT provable on a model (OBLIGATION-OPEN run_ok): that no *other* Python exception can occur (rustworkx graph calls, numpy / "
-    "numba / scipy internals, float underflow to -inf in log space, memory) and that every recorded tree is well-formed "
-    "(C07/C15 carry that on their own models).  Those are covered by running the real chain driver over the boundary "
-    "cross-product of all listed options on 1-3 data points (plus TSV-loaded data and the console entry point), with the model's "
+    "Also proved, composing C03 / C06 / C07 / C15 with the sampler models of C01 / C04: every tree listed by SMC.pgStep, SMC.smcStep, "
+    "Moves.dataPointMove, Moves.pruneRegraft, Moves.subtreeMove for a complete well-formed tree is a complete well-formed tree on the "
+    "same data (support_complete_wf); by induction every state of a run - burn-in sweeps, main sweeps, any schedule, any outcome of "
+    "every draw - is complete and well formed and has pOne > 0 for positive data (run_states_ok); and every entry recorded by "
+    "TraceLoop.runMain, when the sampler oracle returns a store reached by legal edits whose tree is listed by the sweep model, restores "
+    "to a store satisfying the C07 / C06 invariants, holding every data point once, with the recorded, positive log_p_one "
+    "(run_entries_ok).  NOT provable on any model (OBLIGATION-OPEN run_ok): that no *other* Python exception can occur (rustworkx graph "
+    "calls, numpy / numba / scipy internals and the asserts guarding them, float underflow of log-weights to -inf on large inputs, memory, "
+    "process pool, file system).  Those are covered by running the real chain driver over the boundary "
+    "cross-product of all listed options on 1-3 data points (plus TSV-loaded data, the console entry point, and the click command at "
+    "the edges of every accepted range), with the model's "
     "schedule, call counts, swarm bookkeeping and subtree decisions compared against the instrumented run.")
 RULE = ("chain: proposal x num_particles {1,2,5} x resample_threshold {0,1/2,1} x outlier_prob {0,1e-4,1/2,1} x subtree_update_prob "
         "{0,1/2,1} x n in {1,2,3} x concentration update on/off x max_time {inf,0,1e-7} (the 'core'), with thin {1,3}, burnin {0(API),1,2}, "
@@ -66,7 +82,11 @@ RULE = ("chain: proposal x num_particles {1,2,5} x resample_threshold {0,1/2,1} 
         "the other factors on 24 core picks; both tiers add random corners on 4-6 data points with up to 10 particles (60 / 1500).  Data: exact dyadic likelihoods (harness.common.gen_dataset) or load_data on a TSV of "
         "1-3 mutations x 1-2 samples with boundary counts.  A case is non-trivial when every option is in the CLI-accepted range, "
         "the run completes and records at least two entries; distinct = distinct configuration.  Malformed (thin 0, 0 particles) "
-        "and API-only (burnin 0) cases are compared with the model's guards only.")
+        "and API-only (burnin 0) cases are compared with the model's guards only.  cli_edge: the click command in process on 1-3 mutations "
+        "at num_particles 1, resample_threshold 0 / 1, thin > num_iters, burnin 1 (0 is clamped), max_time 0 / 1e-12 / negative, grid_size 11, "
+        "precision 1e-9 / 1e12, num_chains 1-3, subtree_update_prob 0 / 1, outlier_prob 0 / 1, both densities, all proposals, negative "
+        "auxiliary-move counts, and one case with every ranged option below / above its range (must be clamped to the boundary); "
+        "cli_reject: 16 malformed values / options.")
 TRUSTED = ["time.time() is monotone over one run and one sampler iteration takes longer than 1e-7 s (the time-limit cases compare the "
            "number of executed iterations with the model's timer)",
            "numpy's multinomial returns a multiplicity vector of the length of pvals summing to n; choice returns an element of its argument",
@@ -79,7 +99,12 @@ ASSUMPTIONS = ["'valid data set' = every likelihood value positive and finite (d
                "reported to the lead, not judged",
                "outlier_prob = 1.0 is accepted (FloatRange(0,1)); the code then stores log(1) = 0, which its own `outlier_prob != 0` "
                "test reads as 'outlier modelling off for this data point', so the run stays finite; weights_positive is stated for "
-               "outlier priors in [0,1)"]
+               "outlier priors in [0,1)",
+               "click ranges are all declared with clamp=True: an out-of-range number for a listed option is not rejected but moved to "
+               "the boundary; the check judges that the clamped value is the one the run uses and that the run is clean",
+               "values click accepts for options the property text does not list are probes (recorded under probes_outside_property, "
+               "lead's ruling): --precision <= 0 / inf / nan (AssertionError), --seed -1 (ValueError from numpy), --assign-loss-prob with "
+               "--user-provided-loss-prob (bare Exception), --in-file naming a directory, --out-file in a missing directory"]
 SITE = "run.py:run_phyclone_chain"
 SEARCH_BUDGET = 90
 
@@ -395,6 +420,12 @@ def check(ctx, case):
         return check_cli(ctx, case)
     if kind == "probe":
         return check_probe(ctx, case)
+    if kind == "cli_edge":
+        return check_cli_edge(ctx, case)
+    if kind == "cli_reject":
+        return check_cli_reject(ctx, case)
+    if kind == "cli_probe":
+        return check_cli_probe(ctx, case)
     with tempfile.TemporaryDirectory(prefix="c19_") as tmp:
         try:
             with warnings.catch_warnings():
@@ -606,6 +637,165 @@ def _last_error_line(out):
     return (lines[-1].split(":")[0] if lines else "")[:60]
 
 
+
+# ------------------------------------------------------------------------------- click command at the edges, in process
+@contextlib.contextmanager
+def _quiet_fds():
+    """send file descriptors 1 and 2 to /dev/null (spawned chain workers print to the inherited descriptors)"""
+    sys.stdout.flush()
+    sys.stderr.flush()
+    saved = [os.dup(1), os.dup(2)]
+    dn = os.open(os.devnull, os.O_WRONLY)
+    try:
+        os.dup2(dn, 1)
+        os.dup2(dn, 2)
+        yield
+    finally:
+        os.dup2(saved[0], 1)
+        os.dup2(saved[1], 2)
+        for fd in saved + [dn]:
+            os.close(fd)
+
+
+def _invoke(args):
+    """`phyclone <args>` through click's test runner: same parser, same callback, exceptions kept"""
+    from click.testing import CliRunner
+    from phyclone.cli import main as cli_main
+
+    with warnings.catch_warnings(), _quiet_fds():
+        warnings.simplefilter("ignore")
+        return CliRunner().invoke(cli_main, [str(a) for a in args])
+
+
+def _parse_run(args):
+    """what click makes of the `run` arguments (clamping included), without running anything"""
+    from phyclone.cli import run as run_cmd
+
+    with warnings.catch_warnings():
+        warnings.simplefilter("ignore")
+        return run_cmd.make_context("run", [str(a) for a in args]).params
+
+
+def _exc_sig(res):
+    e = res.exception
+    if e is None or isinstance(e, SystemExit):
+        return f"exit-{res.exit_code}"
+    return f"{type(e).__name__}:{err_site(e)}"
+
+
+def check_cli_edge(ctx, case):
+    site = "cli.py:run"
+    with tempfile.TemporaryDirectory(prefix="c19edge_") as tmp:
+        inp, outp = os.path.join(tmp, "in.tsv"), os.path.join(tmp, "trace.pkl.gz")
+        with open(inp, "w") as fh:
+            fh.write(tsv_text(case["rows"]))
+        run_args = ["--in-file", inp, "--out-file", outp] + list(case["args"])
+        try:
+            params = _parse_run(run_args)
+        except Exception as e:
+            ctx.oracle_fail(case, "click rejected a value the command line documents as accepted (or clamped)", site,
+                            "edge-rejected:" + type(e).__name__, str(e)[:300])
+            ctx.done(case, nontrivial=False)
+            return
+        for k, v in case.get("expect_params", {}).items():
+            if params.get(k) != v:
+                ctx.oracle_fail(case, f"option {k}: parsed value differs from the boundary the range clamps to", site,
+                                "clamp:" + k, f"{params.get(k)!r} vs {v!r}")
+        if case.get("subprocess"):  # several chains: the process pool spawns workers, which needs a real main module
+            try:
+                rc, out = _cli(["run"] + run_args, tmp)
+            except subprocess.TimeoutExpired:
+                rc, out = -1, "timeout"
+            if rc != 0:
+                ctx.oracle_fail(case, "phyclone run failed on option values the command line accepts", site,
+                                f"exit-{rc}:" + _last_error_line(out), out)
+                ctx.done(case, nontrivial=False)
+                return
+        else:
+            res = _invoke(["run"] + run_args)
+            if res.exit_code != 0 or res.exception is not None:
+                tb = "".join(traceback.format_exception(*res.exc_info))[-1200:] if res.exc_info else res.output[-800:]
+                ctx.oracle_fail(case, "phyclone run failed on option values the command line accepts", site, _exc_sig(res), tb)
+                ctx.done(case, nontrivial=False)
+                return
+        try:
+            with gzip.open(outp, "rb") as fh:
+                results = pickle.load(fh)
+        except Exception as e:
+            ctx.oracle_fail(case, "trace file does not load", site, "trace-unreadable:" + type(e).__name__, str(e)[:300])
+            ctx.done(case, nontrivial=False)
+            return
+        if sorted(results) != list(range(params["num_chains"])):
+            ctx.oracle_fail(case, "chains in the trace file differ from --num-chains", site, "chains", f"{sorted(results)} vs {params['num_chains']}")
+        n_entries = 0
+        full = [0] + [i for i in range(params["num_iters"]) if i % params["thin"] == 0]
+        for ch, r in sorted(results.items()):
+            nd = len(r["data"])
+            if any(d.value.shape[-1] != params["grid_size"] for d in r["data"]):
+                ctx.oracle_fail(case, "grid size of the data differs from the parsed --grid-size", "data/pyclone.py:load_data", "grid-size",
+                                f"{[d.value.shape for d in r['data']][:3]} vs {params['grid_size']}")
+            iters = [e["iter"] for e in r["trace"]]
+            mt = params["max_time"]
+            if mt == float("inf") or mt != mt:
+                if iters != full:
+                    ctx.oracle_fail(case, "recorded iterations differ from the thinned schedule", "run.py:_run_main_sampler", "schedule", f"{iters} vs {full}")
+            elif iters[:2] != full[:2] or iters != full[: len(iters)]:
+                ctx.oracle_fail(case, "timed run: recorded iterations are not a prefix (of length >= 2) of the thinned schedule",
+                                "run.py:_run_main_sampler", "schedule-timed", f"{iters} vs {full}")
+            for k, e in enumerate(r["trace"]):
+                n_entries += 1
+                for sig, det in entry_problems(e, nd):
+                    ctx.oracle_fail(case, f"chain {ch} trace entry {k} violates the property", "run.py:append_to_trace", sig, det)
+        ctx.stat("cli_edge_entries", n_entries)
+    ctx.done(case, nontrivial=n_entries >= 2, sample={"args": case["args"], "entries": n_entries})
+
+
+def check_cli_reject(ctx, case):
+    site = "cli.py:run"
+    with tempfile.TemporaryDirectory(prefix="c19rej_") as tmp:
+        inp, outp = os.path.join(tmp, "in.tsv"), os.path.join(tmp, "trace.pkl.gz")
+        with open(inp, "w") as fh:
+            fh.write(tsv_text(CLI_ROWS_1))
+        base = [] if case.get("bare") else ["--in-file", inp, "--out-file", outp]
+        args = ["run"] + base + [a.replace("@TMP", tmp) for a in case["args"]]
+        if case.get("subprocess"):
+            rc, out = _cli(args, tmp)
+            clean = rc == 2 and "Error" in out and "Traceback" not in out
+            sig = f"exit-{rc}"
+        else:
+            res = _invoke(args)
+            out = res.output
+            clean = (res.exit_code == 2 and isinstance(res.exception, SystemExit) and "Error" in out and "Traceback" not in out)
+            sig = _exc_sig(res)
+        if not clean:
+            ctx.oracle_fail(case, "a malformed option value does not end as a clean click error (exit 2, 'Error: ...', no traceback)",
+                            site, "reject-not-clean:" + sig, out[-800:])
+        if os.path.exists(outp):
+            ctx.oracle_fail(case, "an output file was written although the command line was rejected", site, "reject-wrote-output")
+    ctx.done(case, nontrivial=True, sample={"args": case["args"]})
+
+
+def check_cli_probe(ctx, case):
+    with tempfile.TemporaryDirectory(prefix="c19prb_") as tmp:
+        inp, outp = os.path.join(tmp, "in.tsv"), os.path.join(tmp, "trace.pkl.gz")
+        with open(inp, "w") as fh:
+            fh.write(tsv_text(CLI_ROWS_2))
+        base = {"--in-file": inp, "--out-file": outp}
+        args = [a.replace("@TMP", tmp) for a in case["args"]]
+        for k, v in base.items():
+            if k not in args:
+                args = [k, v] + args
+        res = _invoke(["run", "--num-iters", "2", "--num-particles", "2", "--grid-size", "11", "--seed", "1"] + args)
+        if res.exception is None:
+            what = "completed"
+        elif isinstance(res.exception, SystemExit):
+            what = f"click-error(exit {res.exit_code})"
+        else:
+            what = f"{type(res.exception).__name__}@{err_site(res.exception)}"
+    ctx.stat(f"probes_outside_property[{case['what']}]={what}")
+    ctx.done(case, nontrivial=False, sample=None)
+
+
 # ------------------------------------------------------------------------------- case generation
 def _cfg(rnd, **kw):
     c = dict(DEFAULT)
@@ -708,9 +898,78 @@ def _cli_cases(rnd, tier):
     return [dict(c, kind="cli") for c in cs]
 
 
+def _cli_edge_cases(rnd, tier):
+    s = lambda: str(rnd.randrange(1 << 20))
+    it = ["--print-freq", "1", "--grid-size", "11"]
+    edge = [
+        # one particle, threshold 0, thin > num_iters, smallest burn-in
+        (CLI_ROWS_2, it + ["--num-particles", "1", "--resample-threshold", "0", "--proposal", "bootstrap", "--density", "binomial",
+                           "--thin", "7", "--num-iters", "3", "--burnin", "1", "--seed", s()], {}),
+        # threshold 1, everything an outlier candidate, subtree update always, tiny precision
+        (CLI_ROWS_3, it + ["--num-particles", "1", "--resample-threshold", "1", "--proposal", "fully-adapted", "--density", "beta-binomial",
+                           "--precision", "1e-9", "--subtree-update-prob", "1", "--outlier-prob", "1", "--num-iters", "3", "--seed", s()], {}),
+        # huge precision, time limit below one iteration, outliers off
+        (CLI_ROWS_2, it + ["--num-particles", "2", "--resample-threshold", "1", "--proposal", "semi-adapted", "--precision", "1e12",
+                           "--subtree-update-prob", "0", "--outlier-prob", "0", "--max-time", "1e-12", "--num-iters", "4", "--seed", s()], {}),
+        # time limit 0 and negative, single iteration, no concentration update
+        (CLI_ROWS_1, it + ["--max-time", "0", "--num-iters", "1", "--burnin", "1", "--thin", "1", "--no-concentration-update", "--seed", s()], {}),
+        (CLI_ROWS_3, it + ["--max-time", "-5", "--num-iters", "3", "--outlier-prob", "0.5", "--subtree-update-prob", "0.5",
+                           "--num-particles", "2", "--seed", s()], {}),
+        # negative auxiliary-move counts (range() of a negative number is empty)
+        (CLI_ROWS_2, it + ["--num-samples-data-point", "-3", "--num-samples-prune-regraph", "-1", "--num-iters", "3", "--num-particles", "2",
+                           "--outlier-prob", "0.5", "--seed", s()], {}),
+        # every ranged option outside its range: click clamps to the boundary
+        (CLI_ROWS_2, ["--print-freq", "1", "--num-particles", "0", "--thin", "0", "--burnin", "0", "--num-iters", "0", "--grid-size", "1",
+                      "--resample-threshold", "2", "--outlier-prob", "-1", "--subtree-update-prob", "5", "--num-chains", "0", "--seed", s()],
+         {"num_particles": 1, "thin": 1, "burnin": 1, "num_iters": 1, "grid_size": 11, "resample_threshold": 1.0, "outlier_prob": 0.0,
+          "subtree_update_prob": 1.0, "num_chains": 1}),
+        (CLI_ROWS_3, ["--print-freq", "1", "--num-particles", "-7", "--thin", "-1", "--burnin", "-2", "--num-iters", "2", "--grid-size", "10",
+                      "--resample-threshold", "-0.5", "--outlier-prob", "1.5", "--subtree-update-prob", "-1", "--seed", s()],
+         {"num_particles": 1, "thin": 1, "burnin": 1, "num_iters": 2, "grid_size": 11, "resample_threshold": 0.0, "outlier_prob": 1.0,
+          "subtree_update_prob": 0.0}),
+        # two chains (process pool with spawned workers)
+        (CLI_ROWS_2, it + ["--num-chains", "2", "--num-iters", "2", "--num-particles", "2", "--outlier-prob", "0.5",
+                           "--subtree-update-prob", "0.5", "--seed", s()], {"num_chains": 2}),
+    ]
+    # all proposals x both densities, subtree update off / always
+    combos = [(p, d, sb) for p in PROPOSALS for d in ("binomial", "beta-binomial") for sb in ("0", "1")]
+    if tier == "quick":
+        combos = [c for i, c in enumerate(combos) if i % 4 in (0, 3)]
+    for p, d, sb in combos:
+        edge.append((rnd.choice([CLI_ROWS_1, CLI_ROWS_2, CLI_ROWS_3]),
+                     it + ["--proposal", p, "--density", d, "--subtree-update-prob", sb, "--num-iters", "3", "--num-particles", rnd.choice(["1", "2", "3"]),
+                           "--outlier-prob", rnd.choice(["0", "0.0001", "1"]), "--resample-threshold", rnd.choice(["0", "1"]), "--seed", s()], {}))
+    if tier == "thorough":
+        edge.append((CLI_ROWS_3, it + ["--num-chains", "3", "--num-iters", "3", "--num-particles", "1", "--outlier-prob", "1",
+                                       "--subtree-update-prob", "1", "--resample-threshold", "1", "--thin", "2", "--seed", s()], {"num_chains": 3}))
+        edge.append((CLI_ROWS_3, ["--grid-size", "11", "--num-iters", "12", "--thin", "5", "--burnin", "3", "--max-time", "1e-9", "--seed", s()], {}))
+    out = [{"kind": "cli_edge", "rows": r, "args": a, "expect_params": e} for r, a, e in edge]
+    for c in out:
+        if "--num-chains" in c["args"] and c["expect_params"].get("num_chains", 1) > 1:
+            c["subprocess"] = True
+    out.sort(key=lambda c: not c.get("subprocess", False))  # the slow ones first: they land on different workers
+    rejects = [["--num-particles", "abc"], ["--num-particles", "1.5"], ["--thin", "1.5"], ["--burnin", "x"], ["--num-iters", ""],
+               ["--resample-threshold", "0,5"], ["--outlier-prob", "half"], ["--subtree-update-prob", "p"], ["--max-time", "soon"],
+               ["--grid-size", "ten"], ["--num-chains", "two"], ["--proposal", "foo"], ["--density", "gaussian"], ["--seed", "1.5"],
+               ["--bogus"], ["--precision", "high"]]
+    out += [{"kind": "cli_reject", "args": a} for a in rejects]
+    out += [{"kind": "cli_reject", "args": ["--in-file", "@TMP/missing.tsv", "--out-file", "@TMP/trace.pkl.gz"], "bare": True},
+            {"kind": "cli_reject", "args": ["--in-file", "@TMP/in.tsv"], "bare": True},  # --out-file is required
+            {"kind": "cli_reject", "args": ["--num-particles", "abc"], "subprocess": True}]
+    probes = [("precision=0", ["--precision", "0"]), ("precision=-1", ["--precision", "-1"]), ("precision=inf", ["--precision", "inf"]),
+              ("precision=nan", ["--precision", "nan"]), ("seed=-1", ["--seed", "-1"]),
+              ("assign-loss-prob+user-provided-loss-prob", ["--assign-loss-prob", "--user-provided-loss-prob"]),
+              ("user-provided-loss-prob,no-cluster-file", ["--user-provided-loss-prob"]), ("max_time=nan", ["--max-time", "nan"]),
+              ("in-file=directory", ["--in-file", "@TMP"]), ("out-file=in-missing-directory", ["--out-file", "@TMP/nodir/trace.pkl.gz"]),
+              ("print-freq=0", ["--print-freq", "0"]), ("concentration-value=0", ["--concentration-value", "0"])]
+    out += [{"kind": "cli_probe", "what": w, "args": a} for w, a in probes]
+    return out
+
+
 def cases(tier, rnd):
     out = []
     out += _cli_cases(rnd, tier)  # first: they are the slow ones and land on different workers
+    out += _cli_edge_cases(rnd, tier)
     # single-factor changes of the default configuration
     for k, vals in list(CORE.items()) + list(OTHER.items()):
         for v in vals:
